@@ -26,18 +26,28 @@ Qed.
 Lemma fact_pos n : 0 < INR (fact n).
 Proof. apply lt_0_INR, lt_O_fact. Qed.
 
+Lemma is_series_lim_eq (a : nat -> R) (l l' : R) :
+  l = l' -> @is_series R_AbsRing R_NormedModule a l -> @is_series R_AbsRing R_NormedModule a l'.
+Proof. intros ->; auto. Qed.
+
+Lemma pois_mean_shift x : is_series (fun k : nat => pois x (S k) * INR (S k)) x.
+Proof.
+  pose proof (@is_series_scal_l R_AbsRing R_NormedModule (x * exp (- x)) (fun k : nat => x ^ k / INR (fact k)) (exp x) (exp_series x)) as H.
+  apply is_series_lim_eq with (l' := x) in H.
+  2:{ change (x * exp (- x) * exp x = x).
+      rewrite Rmult_assoc, <- exp_plus. replace (- x + x) with 0 by ring. rewrite exp_0. ring. }
+  apply is_series_ext with (2 := H).
+  intros k. change (x * exp (- x) * (x ^ k / INR (fact k)) = pois x (S k) * INR (S k)).
+  unfold pois. rewrite fact_simpl, mult_INR, <- tech_pow_Rmult.
+  pose proof (fact_pos k). assert (0 < INR (S k)) by (apply lt_0_INR; lia).
+  field. split; lra.
+Qed.
+
 Lemma pois_mean x : is_series (fun d : nat => pois x d * INR d) x.
 Proof.
-  apply is_series_decr_1. cbv beta.
-  replace (plus x (opp (pois x 0 * INR 0))) with (scal (x * exp (- x)) (exp x)).
-  2:{ unfold plus, opp, scal; simpl; unfold mult; simpl. rewrite Rmult_0_r, Ropp_0, Rplus_0_r.
-      rewrite Rmult_assoc, <- exp_plus. replace (- x + x) with 0 by ring. rewrite exp_0. ring. }
-  apply is_series_ext with (fun k : nat => scal (x * exp (- x)) (x ^ k / INR (fact k))).
-  - intros k. change (x * exp (- x) * (x ^ k / INR (fact k)) = pois x (S k) * INR (S k)).
-    unfold pois. rewrite fact_simpl, mult_INR, <- tech_pow_Rmult.
-    pose proof (fact_pos k). assert (0 < INR (S k)) by (apply lt_0_INR; lia).
-    field. split; lra.
-  - apply (@is_series_scal_l R_AbsRing R_NormedModule (x * exp (- x)) (fun k : nat => x ^ k / INR (fact k)) (exp x)), exp_series.
+  apply is_series_decr_1.
+  apply is_series_lim_eq with (l := x); [|apply pois_mean_shift].
+  change (x = x + - (pois x 0 * INR 0)). simpl. ring.
 Qed.
 
 (* expectation of a function affine in the datum *)
